@@ -11,7 +11,7 @@ ENGINES = [
 
 ENGINES.append(
     {"name": "E3-enumerate", "path": "vf/props/",
-     "serves_properties": ["C20"],
+     "serves_properties": ["C02", "C07", "C20"],
      "kind_free_text": "small-scope exhaustive enumerators (compositions, "
      "all boolean masks / NaN placements, option products) run against the "
      "real code with a reference oracle per case"})
@@ -185,5 +185,46 @@ CHECKS = {
         "note": "process death is modelled by os._exit immediately before "
                 "the operation (not power loss); command logs compared by "
                 "name; seams installed by monkeypatching in the child",
+    },
+    "C02": {
+        "engine": "E3-enumerate",
+        "level": "exploration",
+        "technique": "exhaustive enumeration of filter masks x feature "
+                     "subsets x source kinds on the real exporter vs. the "
+                     "generator's arrays",
+        "text": "For dict, hdf5, hierarchy-child (of each), basin-backed and "
+                ".tdms sources: all 2^N masks for N<=5/6 and for N=11 all "
+                "masks whose selection size is 0,1,9,10,11 (quick) / any "
+                "(thorough) with 10-event export chunks, all non-empty "
+                "subsets of 7 feature kinds (plus a duplicated name) for a "
+                "mask family, filtered and unfiltered, with logs/tables, "
+                "both chunk configurations; the exported file is compared "
+                "through raw h5py and dclab with source[feat][flatnonzero("
+                "mask)], metadata, event count, logs, tables; .tsv parsed "
+                "and compared to 1e-10.",
+        "note": "N <= 23; tdms fixtures have fewer images/contours than "
+                "events, the documented truncation to the shortest feature "
+                "is part of the oracle",
+    },
+    "C07": {
+        "engine": "E3-enumerate",
+        "level": "model_checking",
+        "technique": "exhaustive exploration of the state graph of export "
+                     "chains (states = files, transitions = filtered "
+                     "exports with basins) on the real exporter/basin code",
+        "text": "From a 5-event origin, every chain of nested filter masks "
+                "to depth 2 (quick) / 3 (thorough) is exported with basins "
+                "(no stored features, mixed stored features, export from a "
+                "hierarchy child); in every reached file every feature kind "
+                "(scalar, image, mask, contour, trace, user-shaped) read "
+                "through the basin equals the origin's data at the composed "
+                "map for every access pattern (all ints incl. negative, all "
+                "slices, step, boolean, index list, whole array). Plus all "
+                "120 maps [m]->[3] via store_basin for file and internal "
+                "basins, moved-together, origin-removed, stored-feature "
+                "precedence and a chunk-crossing map.",
+        "note": "states are not merged (each file is distinct); referrer "
+                "and origin live in one scratch directory; remote basins "
+                "are covered by C14/C19",
     },
 }
